@@ -10,7 +10,7 @@ oracle   : on the implementation alone: the outline it returns vs the rule evalu
            change the outline in exactly that way.
 """
 from .. import core, sexp
-from ..gen import parsecases, prog, toks
+from ..gen import parsecases, prog, toks, wf
 
 RULE = ("cases = the shared parser battery (corpus, fixtures, exhaustive short token sequences, generated programs and mutations, soups) "
         "+ declaration-level edits of generated programs + files with zero, one or several class/module headers; "
@@ -98,6 +98,7 @@ def run(ctx):
         if exp != o:
             ctx.oracle_fail("C12:outline-differs-from-rule", "the outline is not 'one entry per top-level declaration, in order, under the first header'",
                             {"mode": "parse", "case": c, "implementation": a[:2000], "expected_outline": exp})
+    generated_expected(ctx, 1500 if q else 20000)
     n = len(edits)
     off = len(lines) - 3 * n
     for i, e in enumerate(edits):
@@ -117,6 +118,40 @@ def run(ctx):
                             {"mode": "parse", "case": e[2], "before": ob, "after": osw})
     ctx.samples = [{"case": lines[i][:300], "outline": sexp.field(impl[i], "O")} for i in (len(lines) - 1, len(lines) // 2, 3)]
     return ctx.finish(rule=RULE)
+
+
+def generated_expected(ctx, n):
+    """the entry list KNOWN TO THE GENERATOR (vlib/gen/wf.py: text + the tree the grammar prescribes): the outline of the real
+    pipeline text -> lexer -> parser -> outline must be exactly the generator's top-level declarations — name and kind, in source
+    order, under the header — whatever the parser made of the text (a declaration swallowed by its neighbour shows here, not
+    in the tree-relative rule above)"""
+    texts, exps = [], []
+    for i in range(n):
+        e = wf.Emit(ctx.rng)
+        tk, tree = e.program(2)
+        texts.append(wf.render(ctx.rng, tk))
+        kids = tree[2]
+        ent = ["%s|%s" % (k[1], KIND[k[0]]) for k in kids if k[0] in KIND]
+        hdr = next((k for k in kids if k[0] in ("class", "module")), None)
+        exps.append((hdr and (hdr[1], "Class" if hdr[0] == "class" else "Module"), ent))
+        ctx.count("generated-expected-outline")
+    glines = parsecases.texts_to_lines(ctx, texts)
+    impl = ctx.run_harness("parse", glines, timeout=900)
+    for text, (hdr, ent), line, a in zip(texts, exps, glines, impl):
+        o = sexp.field(a, "O")
+        if o is None:
+            ctx.oracle_fail("C12:crash", "no outline returned", {"mode": "text", "text": text, "case": line, "implementation": a[:500]})
+            continue
+        inner = o
+        got_hdr = None
+        if "[" in o:
+            head, inner = o.split("[", 1)
+            inner = inner[:-1] if inner.endswith("]") else inner
+            got_hdr = (core.unesc(head.split("|")[0]), head.split("|")[1])
+        got = ["%s|%s" % (core.unesc(x.split("|")[0]), x.split("|")[1]) for x in inner.split(",") if x]
+        if got != ent or (got_hdr or None) != (hdr or None):
+            ctx.oracle_fail("C12:outline-differs-from-declarations", "the outline is not the generator's list of top-level declarations",
+                            {"mode": "text", "text": text, "case": line, "outline": [got_hdr, got], "declared": [hdr, ent]})
 
 
 def replay(ctx):
